@@ -80,6 +80,11 @@ fn gen(t: Tier, seed: u64, emit: &mut dyn FnMut(Case)) {
     for n in long_lengths(2).into_iter().chain(huge_lengths(2).into_iter().step_by(2)) {
         emit(Case::Sequence { idx: bsv::fixture::bg(n, 4, 7, seed), s: n % 3 });
     }
+    // window / chunk counts around 2^16 (a position or step counter kept in a 16-bit integer wraps here; the
+    // type's width is not a literal of the source, so the constant scan of the driver cannot see it)
+    for n in [65_538usize, 65_539, 65_541, 196_610, 196_611, 196_614] {
+        emit(Case::Sequence { idx: bsv::fixture::bg(n, 4, 7, seed), s: n % 3 });
+    }
     if t.thorough() {
         for n in [31usize, 32, 33, 64, 65, 66, 97, 130] {
             pfamily(n, 4, seed, &mut |v| {
